@@ -177,7 +177,11 @@
  * slot.  If we let the compiler know this too, it can optimize away
  * the "if (value in one slot)" branch and just use always-two-slot
  * reading/writing. */
-#ifndef PACK_STORAGE_COMPACT
+#if !defined(PACK_STORAGE_COMPACT) || (PACK_STORAGE_BITS <= 8)
+/* Compact storage of 8 bits or fewer still uses uint8_t slots, so a value
+ * can sit entirely inside one slot and must take the one-slot path (the
+ * always-two-slot path would fold the neighbours' bits into the result and
+ * touch the slot after the element). */
 #define SLOT_CAN_HOLD_ENTIRE_VALUE 1
 #endif
 /* We can't define HOLD_ENTIRE_VALUE as below because BITS_PER_SLOT has sizeof()
